@@ -16,6 +16,7 @@ pub mod c13;
 pub mod c15;
 pub mod c16;
 pub mod c17;
+pub mod c18;
 pub mod c19;
 pub mod c20;
 pub mod genhist;
@@ -39,6 +40,8 @@ pub fn dispatch(cmd: &str, o: &Opts) -> i32 {
         "c15" => c15::run(o),
         "c16" => c16::run(o),
         "c17" => c17::run(o),
+        "c18" => c18::run(o),
+        "c18-child" => c18::child(o),
         "c19" => c19::run(o),
         "c20" => c20::run(o),
         "selfcheck" => match common::selfcheck(o) {
